@@ -270,6 +270,41 @@ func runC19(c *Ctx, r *Rec) {
 					bad = fmt.Sprintf("%s references the registry at %s without holding a package-level mutex on every path", c.fdName(fd), c.pos(byFunc[fd][0].id.Pos()))
 					break
 				}
+				// a write of the registry needs the exclusive lock: under RLock other readers are
+				// inside the map at the same time
+				if writes := registryWritesIn(info, fd, reg); len(writes) > 0 {
+					for _, w := range writes {
+						if lockKindAt(g, info, objKey(held), w) == "shared" {
+							bad = fmt.Sprintf("%s writes the registry at %s while it holds only the read lock of %s: other goroutines read the map at the same moment (concurrent map read and map write)", c.fdName(fd), c.pos(w.Pos()), held.Name())
+						}
+					}
+					if bad == "" && !ast.IsExported(fd.Name.Name) {
+						// a private helper that writes: every call site must hold the exclusive lock
+						hfn := c.funcOf(fd)
+						for _, cfd := range c.allFuncDecls(role) {
+							if cfd.Body == nil || cfd == fd || hfn == nil {
+								continue
+							}
+							var cg *FG
+							ast.Inspect(cfd.Body, func(x ast.Node) bool {
+								if call, ok := x.(*ast.CallExpr); ok {
+									if cf := calleeOf(info, call); cf != nil && cf.Origin() == hfn.Origin() {
+										if cg == nil {
+											cg = newFG(info, cfd.Body)
+										}
+										if lockKindAt(cg, info, objKey(held), call) == "shared" {
+											bad = fmt.Sprintf("%s, which writes the registry, is called at %s while %s holds only the read lock of %s: other goroutines read the map at the same moment (concurrent map read and map write)", fd.Name.Name, c.pos(call.Pos()), c.fdName(cfd), held.Name())
+										}
+									}
+								}
+								return true
+							})
+						}
+					}
+					if bad != "" {
+						break
+					}
+				}
 				if guard == nil {
 					guard = held
 				} else if guard != held {
@@ -816,4 +851,57 @@ func methodMayPanic(c *Ctx, fd *ast.FuncDecl, n *types.Named, depth int, seen ma
 		return true
 	})
 	return found
+}
+
+// lockKindAt: "exclusive" when x stands in a region opened by Lock, "shared" when opened by RLock,
+// "" when no region of the mutex encloses it (dominating lock that no dominating unlock closes).
+func lockKindAt(g *FG, info *types.Info, key string, x ast.Node) string {
+	env := &symEnv{info: info}
+	kind := ""
+	for _, b := range g.order {
+		for _, n := range b.Nodes {
+			if mutexOp(info, env, n, key) != "lock" || !g.nodeDominates(n, x) {
+				continue
+			}
+			closed := false
+			for _, b2 := range g.order {
+				for _, u := range b2.Nodes {
+					if mutexOp(info, env, u, key) == "unlock" && g.nodeDominates(n, u) && g.nodeDominates(u, x) {
+						closed = true
+					}
+				}
+			}
+			if closed {
+				continue
+			}
+			kind = "shared"
+			if es, ok := n.(*ast.ExprStmt); ok {
+				if _, mname, _, ok := methodCall(es.X); ok && mname == "Lock" {
+					kind = "exclusive"
+				}
+			}
+		}
+	}
+	return kind
+}
+
+// registryWritesIn lists the statements of fd that write the package-level map reg.
+func registryWritesIn(info *types.Info, fd *ast.FuncDecl, reg types.Object) []ast.Node {
+	var out []ast.Node
+	ast.Inspect(fd.Body, func(x ast.Node) bool {
+		switch s := x.(type) {
+		case *ast.AssignStmt:
+			for _, l := range s.Lhs {
+				if ix, ok := ast.Unparen(l).(*ast.IndexExpr); ok && isObj(info, ix.X, reg) {
+					out = append(out, s)
+				}
+			}
+		case *ast.CallExpr:
+			if isBuiltinCall(info, s, "delete") && len(s.Args) == 2 && isObj(info, s.Args[0], reg) {
+				out = append(out, s)
+			}
+		}
+		return true
+	})
+	return out
 }
